@@ -43,6 +43,23 @@ fn main() {
         usage();
     }
     match args[1].as_str() {
+        "parts" => {
+            // parts: one markdown table row per check part (used to keep DESIGN.md in step with the code)
+            for n in 1..=20 {
+                let id = format!("C{:02}", n);
+                if let Some(c) = make_check(&id) {
+                    let q = c.parts(Tier::Quick);
+                    let t = c.parts(Tier::Thorough);
+                    for (pq, pt) in q.iter().zip(t.iter()) {
+                        let show = |k: &PartKind| match k {
+                            PartKind::Random { cases, .. } => format!("{} generated cases", cases),
+                            PartKind::Enum { units } => format!("{} enumeration units", units),
+                        };
+                        println!("| {} | {} | {} | {} |", id, pq.name, show(&pq.kind), show(&pt.kind));
+                    }
+                }
+            }
+        }
         "agent" => bb::agent::main(&args[2..]),
         "step" => bb::incr::step_main(&args[2..]),
         "corpus" => {
